@@ -48,10 +48,12 @@ void vp_graph_deactivate() { deactivate_graph(vp_graph()); }
 // typed storage handed out by the harness's r1::allocate stub (cbmc cannot constant-propagate a vptr stored into malloc'ed
 // bytes; separate globals, not an array: its simplifier decides pointer (in)equalities only for offset-0 addresses)
 #define VP_TASK_STORAGE(PFX, TASK_T) \
-  static vp_raw<TASK_T> PFX##_s0, PFX##_s1, PFX##_s2, PFX##_s3, PFX##_s4, PFX##_s5, PFX##_s6, PFX##_s7; \
+  static vp_raw<TASK_T> PFX##_s0, PFX##_s1, PFX##_s2, PFX##_s3, PFX##_s4, PFX##_s5, PFX##_s6, PFX##_s7, PFX##_s8, PFX##_s9, PFX##_s10, PFX##_s11, PFX##_s12, PFX##_s13, PFX##_s14, PFX##_s15; \
   extern "C" void* PFX##_mem(unsigned i) { \
     switch (i) { case 0: return &PFX##_s0.x; case 1: return &PFX##_s1.x; case 2: return &PFX##_s2.x; case 3: return &PFX##_s3.x; \
-                 case 4: return &PFX##_s4.x; case 5: return &PFX##_s5.x; case 6: return &PFX##_s6.x; default: return &PFX##_s7.x; } } \
+                 case 4: return &PFX##_s4.x; case 5: return &PFX##_s5.x; case 6: return &PFX##_s6.x; case 7: return &PFX##_s7.x; \
+                 case 8: return &PFX##_s8.x; case 9: return &PFX##_s9.x; case 10: return &PFX##_s10.x; case 11: return &PFX##_s11.x; \
+                 case 12: return &PFX##_s12.x; case 13: return &PFX##_s13.x; case 14: return &PFX##_s14.x; default: return &PFX##_s15.x; } } \
   extern "C" unsigned PFX##_size() { return sizeof(TASK_T); }
 // run a spawned task the way a worker does: execute(), or cancel() when its group context is cancelled. Returns the bypass task.
 #define VP_RUN_TASK() \
